@@ -161,4 +161,52 @@ CHECKS['C16'] = dict(
     assumptions=[],
 )
 
+CHECKS['C08'] = dict(
+    src='checks/c08_bitmap.cpp',
+    runs=[dict(cfg='asan')],
+    technique='small-scope exhaustive enumeration of accepted bitmap files (independent encoder) and factory parameter triples, executed on the real reader/writer',
+    level_text='For depth 1, 4, 8 x every width 0..66 (every residue of row bits mod 32 for every depth; thorough adds 127..129, 1023..1025) x every height -3..3 (thorough +-31..33) x four palette forms (full, 1 entry, 2^d-1, 2^d used colours) x important-colour count 0/1, with non-zero bytes in the file row padding: ReadIndexed accepts, Validate passes, width >= 0, pixel size = pitch x |height| with the pitch computed independently, palette <= 2^d entries; the written file parses under the strict ref_bmp decoder with zero row padding and consistent headers; write -> read preserves width, signed height, depth, every palette entry that was read and every pixel byte inside the meaningful row width; InvertScanLines reverses the rows and negates the height and twice restores the original. The factory functions (three overloads) round-trip to an equal object on the same (depth, width, height) grid; unsupported depths are refused. Headers with negative width whose size cross-check holds modulo 2^64 must not be accepted.',
+    level_note='Trusts ref_bmp (100 lines), g++/ASan/UBSan. Weaker reading: after a round trip a partial palette may have grown to full length as long as the entries that were read are unchanged.',
+    rule='state = one accepted file or factory triple; transitions = read/write/flip calls judged',
+    bounds={'quick': '3 depths x 67 widths x 7 heights x 4 palette forms x 2; factory 3 x 67 x 7 x 3 overloads', 'thorough': 'adds 6 large widths and 6 large heights'},
+    must_hit={'any': ['accepted/full-palette', 'accepted/partial-palette', 'accepted/top-down', 'accepted/empty-image', 'factory/round-trips', 'factory/unsupported-depths', 'negative-width/wrap-consistent-headers']},
+    assumptions=[],
+)
+
+CHECKS['C09'] = dict(
+    src='checks/c09_tileset.cpp',
+    runs=[dict(cfg='asan')],
+    technique='small-scope exhaustive product of tileset pictures x orientation x storage format and all single-byte signature variants, executed on the real loader/saver against an independent format encoder',
+    level_text='Every picture over heights {0,32,64,96} (thorough +128, 2048) x three palettes (all entries distinct with red != blue, all zero, wrapping) x two pixel fills x both scan-line orientations is saved with WriteCustomTileset and with WriteIndexed: the custom bytes must equal the independent ref_tileset encoding (tags, lengths, tag counts, width 32, depth 8, flags 8, PPAL 1048 / head 4 / data 1024, blue-green-red palette order, rows top-down) and be identical for both orientations; ReadTileset of the custom bytes returns the picture top-down with identical colours and ReadTileset of the standard bitmap shows the same visual rows and colours. PeekIsCustomTileset is probed with each of the 4 signature bytes x all 256 values, BM-led streams, streams of length 0..3, tags at positions 0, 1 and 5, memory- and file-backed: the answer must be tag == PBMP and Position() must be unchanged, also when the probe throws on a short stream. 14 violating pictures (depth 1/4, widths 0/31/33/64/16, heights +-1, +-31, +-33, 48) are refused by WriteCustomTileset, ValidateTileset and by ReadTileset of their standard form; 11 custom files with violating header fields are refused.',
+    level_note='The outer PBMP length (1068 + 32h) is pinned to the tree, not independently known: for that field the check is a drift detector only. Palettes have 256 entries (partial palettes are not judged).',
+    rule='state = one picture/orientation or one probe; transitions = save/load/peek calls judged',
+    bounds={'quick': '4 heights x 3 palettes x 2 fills x 2 orientations x 2 storages; 1024+ signature probes; 53 refusal probes', 'thorough': '6 heights'},
+    must_hit={'any': ['pictures/top-down', 'pictures/bottom-up', 'detector/custom', 'detector/not-custom', 'detector/short-streams', 'refusals/attempts']},
+    assumptions=[],
+)
+
+CHECKS['C10'] = dict(
+    src='checks/c10_prt.cpp',
+    runs=[dict(cfg='asan')],
+    technique='small-scope deviation-bounded enumeration of well-formed PRT files (independent encoder) on the real reader/writer, writer-refusal enumeration, single-field fault enumeration',
+    level_text='Well-formed PRT byte strings are produced by the independent ref_prt encoder over 12 dimensions (0..2 palettes, 0..2 images with widths 0,1,3,4,5 and type bits 0/shadow/all, 0..2 animations, 0..2 frames with all four combinations of the two optional-data flags, layer counts 0,1,2,127, optional byte values, 0..2 unknown-container records, unknown total, canonical and two non-canonical-but-accepted palette header spellings) with at most 3 (thorough 5) dimensions off default. For each: Read accepts; every field equals the reference incl. palettes r,g,b in memory where the file has b,g,r; the cross-field rules hold under independent 64-bit evaluation; Write reproduces the input bytes when the palette headers are canonical and the canonical re-encoding otherwise; a deep dump of the object is identical before and after Write; Read(Write(x)) deep-equals x and a second Write is byte-identical. 60+ in-memory structures violating a rule (palette index out of range, scan line != rounded width incl. widths >= 2^32-3, layer list != 7-bit count) must make Write throw without altering the object. Every proper prefix and every integer field x ~45 boundary values of two seed files is either rejected or yields a result that satisfies the rules.',
+    level_note='Trusts ref_prt (100 lines) and g++/ASan/UBSan. Structures with more than 2 palettes/images/animations/frames are not enumerated.',
+    rule='state = one well-formed file / one violating structure / one corrupted file; transitions = Read/Write calls judged',
+    bounds={'quick': 'deviation<=3 over 12 dimensions; 60 writer refusals; level-1 faults on 2 seeds', 'thorough': 'deviation<=5'},
+    must_hit={'any': ['roundtrip/canonical-input-reproduced', 'roundtrip/non-canonical-headers-canonicalised', 'frames/both-optional-flags', 'frames/one-optional-flag', 'frames/no-optional-flag', 'frames/127-layers', 'frames/0-layers', 'writer-refusals/attempts', 'corruption/rejected', 'corruption/accepted']},
+    assumptions=[],
+)
+
+CHECKS['C11'] = dict(
+    src='checks/c11_loader_faults.cpp',
+    runs=[dict(cfg='asan')],
+    technique='deviation-bounded fault enumeration over reference-encoded bitmaps, tilesets and PRT files plus arithmetically constructed wrap-consistent headers; explicit-state exploration of follow-up operations on every accepted object',
+    level_text='Seeds: indexed bitmaps of depth 1, 4 (partial palette, top-down) and 8, a tileset stored as standard bitmap, a custom tileset 32x64, and a PRT file with 2 palettes, 3 images (one shadow image) and 2 animations. Every proper prefix, every integer field x ~45 boundary values, byte substitutions in the header regions, and (thorough) all field pairs x 10x10 values are loaded through BitmapFile::ReadIndexed, Tileset::ReadTileset and ArtFile::Read under ASan+UBSan; in addition headers are constructed arithmetically (no solver) whose size cross-check holds modulo 2^64 or 2^32: bitmap width in {0,-1,-2,-3,-4,-8,-31,-32,INT_MIN,INT_MIN+1,INT_MAX,2^28} x 18 heights incl. INT_MIN, with the 64-bit and the int-abs variant of |height|; custom tileset height fields >= 2^31 with the pixel length 32*h mod 2^32 and odd depth fields; PRT images of width 2^32-3..2^32-1 with scan line 0 and extreme heights. Every proper prefix must be refused. For every accepted bitmap all follow-up operations (Validate, WriteIndexed to memory and to a file, WriteCustomTileset, InvertScanLines, SwapRedAndBlue, AbsoluteHeight, GetScanLineOrientation) are applied in every reachable flip/swap state (fixpoint); for every accepted PRT, Write and SpriteLoader::ExtractImage for every index in 0..count+1 and SIZE_MAX against three pixel files (empty, short, large enough): every call must return or throw a std::exception, out-of-range sprite indices must be refused.',
+    level_note='Trusts the reference encoders and g++/ASan/UBSan (gcc UBSan reports abs(INT_MIN)); allocation requests above 64 MiB are answered with bad_alloc. Coverage-guided mutation and solver-chosen combinations are replaced by the arithmetic enumeration above.',
+    rule='case = a block of mutants of one seed; states = accepted objects and their flip/swap states; transitions = loader calls and follow-up operations',
+    bounds={'quick': 'level 1 on 6 seeds + about 500 constructed headers', 'thorough': 'adds level 2 field pairs'},
+    must_hit={'any': ['load/refused', 'load/accepted', 'followup/returned', 'followup/ordinary-error', 'followup/sprite-index-out-of-range', 'followup/sprite-extracted', 'followup/sprite-refused', 'constructed/wrap-consistent-headers', 'seeds/unmodified']},
+    assumptions=[],
+)
+
 NOT_APPLICABLE = {}
